@@ -11,7 +11,8 @@ def run(ctx, info):
     ctx.assumptions += ["serial mode, equal arguments; fields assigned only in __init__ and never stored again are constructor constants (inputs)"]
     for n, bad in c07.facts(ctx, info, ("stale",)).items():
         ctx.violation(f"skeleton:{n}:stale", f"{n}: instance fields read before they are assigned in the same run: {bad}", {"kind": "skeleton", "optimizer": n, "facts": bad})
-    pairs = L.c08_jobs(ctx)
+    from .. import hot
+    pairs = L.c08_jobs(ctx, focus=hot.changed_sources(info))
     obs = L.run_pairs(pairs)
     n = L.c08_decide(ctx, pairs, obs)
     ctx.add_cover(2 * n, n, "every optimizer: optimize() on an instance already used 1-2 times (same or another task of another dimension; stop by budget, "
